@@ -3151,6 +3151,15 @@ impl Program<Name> {
                                     continue;
                                 }
 
+                                // The curried definition of this argument applies the one of the
+                                // arguments before it; those only exist for constants.
+                                if id_vec
+                                    .iter()
+                                    .any(|item| !matches!(item.term, Term::Constant { .. }))
+                                {
+                                    continue;
+                                }
+
                                 let mut id_only_vec =
                                     id_vec.iter().map(|item| item.curried_id).collect_vec();
 
